@@ -593,8 +593,9 @@ Definition is_getter (h : hstate) (o : op) : bool :=
     Threads execute programs made of calls [MCall k] of ONE memoised function with
     argument tuple [k] and of [MInval] ([_invalidate_cache()]).  Micro-steps of
     [cached_wrapper]: acquire the decorator's RLock; look the key up; on a miss run the
-    body (inside the lock) and then [setdefault]; release.  The body's result is
-    arbitrary: [bv n k] is what the [n]-th execution returns for key [k]. *)
+    body (inside the lock) and then [setdefault]; release.  The body's behaviour is
+    arbitrary: [bv n k] is what the [n]-th execution does for key [k]: [Some v] = returns
+    [v], [None] = raises (an aborted computation). *)
 
 Open Scope nat_scope.
 
@@ -614,8 +615,8 @@ Record mthread := { m_pc : mpc; m_todo : list mcmd; m_rets : list (nat * nat * Z
 Record mstate := {
   m_lock : lock;
   m_cache : nat -> option Z;
-  m_calls : nat -> nat;        (* body executions per key since the last [cache.clear()] *)
-  m_total : nat;               (* body executions overall *)
+  m_calls : nat -> nat;        (* COMPLETED body executions per key since the last [cache.clear()] *)
+  m_total : nat;               (* body executions overall (completed or aborted) *)
   m_invals : nat;              (* [cache.clear()]s executed *)
   m_th : nat -> mthread
 }.
@@ -624,7 +625,7 @@ Definition mset_th (s : mstate) (t : nat) (x : mthread) : mstate :=
   {| m_lock := m_lock s; m_cache := m_cache s; m_calls := m_calls s; m_total := m_total s;
      m_invals := m_invals s; m_th := upd (m_th s) t x |}.
 
-Definition mstep (bv : nat -> nat -> Z) (s : mstate) (t : nat) : option mstate :=
+Definition mstep (bv : nat -> nat -> option Z) (s : mstate) (t : nat) : option mstate :=
   let th := m_th s t in
   match m_pc th with
   | PIdle =>
@@ -646,11 +647,21 @@ Definition mstep (bv : nat -> nat -> Z) (s : mstate) (t : nat) : option mstate :
                                  end;
                          m_todo := m_todo th; m_rets := m_rets th |})
   | PBody k =>
-    Some {| m_lock := m_lock s; m_cache := m_cache s;
-            m_calls := upd (m_calls s) k (S (m_calls s k));
-            m_total := S (m_total s); m_invals := m_invals s;
-            m_th := upd (m_th s) t {| m_pc := PStore k (bv (m_total s) k);
-                                      m_todo := m_todo th; m_rets := m_rets th |} |}
+    match bv (m_total s) k with
+    | Some v =>
+      Some {| m_lock := m_lock s; m_cache := m_cache s;
+              m_calls := upd (m_calls s) k (S (m_calls s k));
+              m_total := S (m_total s); m_invals := m_invals s;
+              m_th := upd (m_th s) t {| m_pc := PStore k v;
+                                        m_todo := m_todo th; m_rets := m_rets th |} |}
+    | None =>
+      (* the body raises: [setdefault] is never called, the exception leaves the
+         [with lock] block (which releases the lock) and reaches the caller *)
+      Some {| m_lock := m_lock s; m_cache := m_cache s; m_calls := m_calls s;
+              m_total := S (m_total s); m_invals := m_invals s;
+              m_th := upd (m_th s) t {| m_pc := PRelease None;
+                                        m_todo := m_todo th; m_rets := m_rets th |} |}
+    end
   | PStore k v =>
     let c' := match m_cache s k with Some _ => m_cache s | None => upd (m_cache s) k (Some v) end in
     Some {| m_lock := m_lock s; m_cache := c'; m_calls := m_calls s; m_total := m_total s;
